@@ -94,6 +94,10 @@ type caseGen struct {
 	tags  map[string]bool
 	codeSender *keyPair // signer whose account carries plain code
 	blockGasLeft uint64
+	recursers  []refevm.Address // contracts carrying the loop-free self-recursion probe
+	steerEnv   *refevm.BlockEnv // incremental model run used for steering only
+	steerState refevm.State
+	steerCtx   *refevm.BlockCtx
 }
 
 func (g *caseGen) tag(s string) { g.tags[s] = true }
@@ -424,8 +428,12 @@ func (g *caseGen) genTxs() {
 				need = floor.Uint64()
 			}
 			tx.Gas = need + pick(rng, uint64(rng.Intn(3000)), uint64(rng.Intn(60_000)), 100_000, 300_000, 300_000, 1_000_000, 1_000_000, 3_000_000)
-			if g.fork < refevm.Osaka && rng.Intn(3) == 0 && g.c.Env.GasLimit >= 1<<42 {
-				tx.Gas = 1 << 40 // enough for 1024 nested frames despite the 63/64 rule
+			// Huge gas (enough for 1024 nested frames despite the 63/64 rule) only for calls
+			// to the loop-free self-recursion probe: any loop would run practically forever.
+			if g.fork < refevm.Osaka && len(g.recursers) > 0 && rng.Intn(2) == 0 && g.c.Env.GasLimit >= 1<<42 && tx.Type != 3 {
+				a := g.recursers[rng.Intn(len(g.recursers))]
+				tx.To = &a
+				tx.Gas = 1 << 40
 				g.tag("huge-gas")
 			}
 		}
@@ -455,27 +463,33 @@ func (g *caseGen) genTxs() {
 // nonces and the remaining block gas from it (the oracle steers generation only; the
 // verdict never depends on this).
 func (g *caseGen) steer() {
-	txs := make([]*refevm.Tx, len(g.c.Txs))
-	for i, t := range g.c.Txs {
-		txs[i] = t.Tx
+	defer func() { recover() }() // a model crash here only costs steering; judge() reports it
+	if g.steerEnv == nil {
+		be, ok := refevm.NewBlockEnv(g.fork, g.c.Env)
+		if !ok {
+			return
+		}
+		g.steerEnv, g.steerState = be, g.c.Pre.Copy()
+		g.steerCtx = &refevm.BlockCtx{GasLeft: g.c.Env.GasLimit}
+		if g.c.Env.ParentBeaconRoot != nil {
+			refevm.SystemCall(g.steerState, be, refevm.BeaconRootsAddress, g.c.Env.ParentBeaconRoot[:])
+		}
+		if g.fork >= refevm.Prague && g.c.Env.BlockHashes != nil {
+			ph := g.c.Env.BlockHashes[g.c.Env.Number-1]
+			refevm.SystemCall(g.steerState, be, refevm.HistoryAddress, ph[:])
+		}
 	}
-	var res *refevm.BlockResult
-	var post refevm.State
-	func() {
-		defer func() { recover() }()
-		res, post = refevm.Transition(g.fork, g.c.Pre, g.c.Env, txs, nil, nil)
-	}()
-	if res == nil || post == nil {
-		return
+	tx := g.c.Txs[len(g.c.Txs)-1].Tx
+	trial, tbc := g.steerState.Copy(), *g.steerCtx
+	if r, _ := refevm.ApplyTx(trial, g.steerEnv, &tbc, tx, nil, nil); !r.Rejected {
+		g.steerState, *g.steerCtx = trial, tbc
 	}
 	for _, k := range keys {
-		if acc := post[k.Addr]; acc != nil {
+		if acc := g.steerState[k.Addr]; acc != nil {
 			g.nonce[k.Addr] = acc.Nonce
 		}
 	}
-	if res.GasUsed <= g.c.Env.GasLimit {
-		g.blockGasLeft = g.c.Env.GasLimit - res.GasUsed
-	}
+	g.blockGasLeft = g.steerCtx.GasLeft
 }
 
 func (g *caseGen) calldata() []byte {
@@ -533,7 +547,7 @@ func (g *caseGen) systemTx(tx *refevm.Tx) {
 	case 2:
 		a := refevm.DepositAddress
 		tx.To = &a
-		tx.Data = depositData(rng, g.ft.BadDeposits && rng.Intn(4) == 0, g.ft.BadDepositLayout)
+		tx.Data = depositData(rng, g.ft.BadDeposits && rng.Intn(6) == 0, g.ft.BadDepositLayout)
 		tx.Value = pick(rng, big.NewInt(0), big.NewInt(0), big.NewInt(2), big.NewInt(1))
 		g.tag("sys:deposit")
 	}
